@@ -344,6 +344,10 @@ def positional_relabel(chk, rule="MIRROR.state.stack.labels"):
                           "feature coordinates every value lands on the wrong label")
 
 
+def rule_prefix(chk, rule: str) -> str:
+    return rule
+
+
 def _concat_align(chk):
     pm = chk.pm
     cc = pm.cls("xeofs.preprocessing.concatenator.Concatenator")
@@ -355,6 +359,20 @@ def _concat_align(chk):
     chk.check(not bad, "MIRROR.state.concat.align", tr, cs[0],
               why=f"list items are concatenated with {bad}: the sample index of the first item is pasted onto the others by position, so items whose "
                   "samples are ordered differently get their values attached to the wrong sample labels")
+    # other ways of gluing by position: numpy / dask concatenation, or giving the items a common sample index first
+    tf = FuncFacts.of(tr)
+    pos = []
+    for c in calls_in(tr):
+        nm = dotted(c.func) or ""
+        if nm.split(".")[-1] in ("concatenate", "hstack", "vstack", "column_stack", "stack") and nm.split(".")[0] in ("np", "numpy", "da", "dask"):
+            pos.append((c, f"{nm}() concatenates raw arrays"))
+        if isinstance(c.func, ast.Attribute) and c.func.attr in ("assign_coords", "drop_vars", "reset_index", "reset_coords", "reindex_like", "reindex", "isel", "sel"):
+            args = list(c.args) + [k.value for k in c.keywords] + ([k for a in c.args if isinstance(a, ast.Dict) for k in a.keys])
+            if any(any(p.atom.kind == "selfattr" and p.atom.name == "self.sample_name" for p in tf.paths(a, spine_only=True)) for a in args if a is not None) \
+                    or any(k.arg == "sample" for k in c.keywords):
+                pos.append((c, f".{c.func.attr}() re-labels or re-selects the sample dimension of an item before concatenation"))
+    chk.check(not pos, rule_prefix(chk, "MIRROR.state.concat.align.items"), tr, pos[0][0] if pos else cs[0], construct="items reach xr.concat with their own sample labels",
+              why=(pos[0][1] + ": items whose samples are stored in another order (or lost other samples) are attached to the wrong sample labels") if pos else "")
     d = kw.get("dim")
     dps = FuncFacts.of(tr).paths(d, spine_only=True) if d is not None else []
     chk.check(bool(dps) and all(p.atom.kind == "selfattr" and p.atom.name == "self.feature_name" and not p.ops for p in dps), "MIRROR.state.concat.dim", tr, cs[0],
@@ -390,6 +408,21 @@ def _multiindex(chk):
         got[ref] = "self." + "|".join(sorted(rd))
     chk.check(got == {"fit": "self.coords_from_fit", "transform": "self.coords_from_transform"}, "MIRROR.state.multiindex.reference", inv, inv.node,
               construct="reference 'fit' -> coords_from_fit, 'transform' -> coords_from_transform", why=f"reference table is {got}")
+    # the inverse puts the remembered labels back AND rebuilds the MultiIndex from them
+    invf = FuncFacts.of(inv)
+    rets = returns_of(inv)
+    restored = any(p.has_op("method", "set_index") for r in rets for p in invf.paths(r.value, spine_only=True))
+    wrote = any(isinstance(stt, ast.Assign) and isinstance(stt.targets[0], ast.Subscript) and isinstance(stt.targets[0].value, ast.Attribute) and stt.targets[0].value.attr == "coords"
+                for stt in walk_no_nested(inv.node)) or any(p.has_op("method", "assign_coords") for r in rets for p in invf.paths(r.value, spine_only=True))
+    chk.check(restored and wrote, "MIRROR.state.multiindex.restore", inv, rets[0] if rets else inv.node, construct="inverse re-attaches the labels and rebuilds the MultiIndex (set_index)",
+              why="the inverse map no longer " + ("rebuilds the MultiIndex from the restored labels" if wrote else "re-attaches the remembered labels") + ": results come back with a flat / positional index")
+    # the coordinates remembered at fit and those captured by transform live in two distinct containers
+    from .c14 import alias_sites
+    al = [(fn, st, t, a) for fn, st, t, a in alias_sites(pm) if fn.cls is not None and mc in fn.cls.mro and {t, a} & {"coords_from_fit", "coords_from_transform"}]
+    chk.check(not al, "MIRROR.state.multiindex.distinct", al[0][0] if al else fit, al[0][1] if al else fit.node,
+              construct="coords_from_fit and coords_from_transform are two containers",
+              why=(f"self.{al[0][2]} is bound to the container of self.{al[0][3]}: transforming other data overwrites the labels remembered at fit, and the "
+                   "fitted results come back with the other data's labels") if al else "")
     want = {"inverse_transform_data": "fit", "inverse_transform_components": "fit", "inverse_transform_scores": "fit", "inverse_transform_scores_unseen": "transform"}
     for mname, ref in want.items():
         m = mc.methods[mname]
